@@ -17,7 +17,13 @@ DTYPES = {'int16': np.int16, 'float32': np.float32, 'float64': np.float64, 'int3
 
 
 def _term_elem(t, dt):
-    return SymReal(z3.ToReal(t)) if np.dtype(dt).kind == 'f' else SymInt(t)
+    dt = np.dtype(dt)
+    if dt.kind == 'f':
+        return SymReal(z3.ToReal(t))
+    if dt.kind == 'u':
+        # file bytes of an unsigned type: the uninterpreted value reduced into the type's range
+        return SymInt(t % (1 << (8 * dt.itemsize)))
+    return SymInt(t)
 
 
 class SymRecording(object):
